@@ -7,6 +7,20 @@ use bitcoin::Transaction;
 use ic_btc_interface::{Network, SetConfigRequest};
 use serde::{Deserialize, Serialize};
 
+/// Rebuilds the world configuration from a recorded context.
+pub fn cfg_from_context(c: &Value) -> WorldCfg {
+    let net = match c["net"].as_str().unwrap_or("regtest") {
+        "mainnet" => Network::Mainnet,
+        "testnet" => Network::Testnet,
+        _ => Network::Regtest,
+    };
+    let mut cfg = WorldCfg::on(net, c["theta"].as_u64().unwrap_or(2) as u32);
+    cfg.lazy_fees = c["lazy_fees"].as_bool().unwrap_or(false);
+    cfg.api_access = c["api_access"].as_bool().unwrap_or(true);
+    cfg.disable_if_not_synced = c["disable_if_not_synced"].as_bool().unwrap_or(false);
+    cfg
+}
+
 #[derive(Clone, Debug, Serialize, Deserialize, PartialEq, Eq, Hash)]
 pub enum Ev {
     /// A new block on the block with id `parent` (0 = genesis, k = k-th accepted block).
@@ -514,6 +528,10 @@ pub trait Oracle: Sync {
     fn dedup(&self) -> bool {
         true
     }
+    /// Oracle parameters, recorded for replay.
+    fn params(&self) -> Value {
+        Value::Null
+    }
     /// Whether a trap in this kind of event is itself a violation of the property.
     fn trap_is_violation(&self) -> bool {
         true
@@ -626,6 +644,18 @@ impl<O: Oracle> Model for ChainModel<O> {
         }
         let h = crate::util::sha256(&b);
         Some(u128::from_le_bytes(h[..16].try_into().unwrap()))
+    }
+
+    fn context(&self) -> Value {
+        json!({
+            "model": "chain",
+            "net": self.cfg.net.to_string(),
+            "theta": self.cfg.threshold,
+            "lazy_fees": self.cfg.lazy_fees,
+            "api_access": self.cfg.api_access,
+            "disable_if_not_synced": self.cfg.disable_if_not_synced,
+            "oracle": self.oracle.params(),
+        })
     }
 
     fn sample(&self, s: &mut Self::S, hist: &[Ev]) -> Value {
